@@ -23,7 +23,8 @@ res = {'id': mid, 'property': prop}
 sh('git -C /repo worktree add -q --detach %s main' % wt)
 try:
     env = dict(os.environ, PYTHONPATH=wt)
-    eq = os.path.join(d, 'equiv.py')
+    eq = os.path.join(wt, '_equiv_tmp.py')
+    open(eq, 'w').write(open(os.path.join(d, 'equiv.py')).read().replace('/tmp/rw_%s' % prop, wt))
     r0 = sh('/venv/bin/python %s' % eq, cwd=wt, env=env, timeout=1800)
     r = sh('git -C %s apply %s' % (wt, os.path.join(d, 'patch.diff')))
     if r.returncode != 0:
@@ -31,6 +32,7 @@ try:
     res['apply_rc'] = r.returncode
     if r.returncode == 0:
         r1 = sh('/venv/bin/python %s' % eq, cwd=wt, env=env, timeout=1800)
+        os.remove(eq)
         res['equiv_same'] = (r0.stdout == r1.stdout and r0.returncode == 0 and r1.returncode == 0)
         r = sh('/venv/bin/python -m pytest -q -p no:cacheprovider --timeout=900 2>&1 | tail -1', cwd=wt, env=env, timeout=1800)
         res['tests'] = r.stdout.strip()
